@@ -3,14 +3,17 @@ package main
 import (
 	"math"
 	"sort"
+	"strings"
 
 	sdkmath "cosmossdk.io/math"
 	sdk "github.com/cosmos/cosmos-sdk/types"
+	banktypes "github.com/cosmos/cosmos-sdk/x/bank/types"
 	govv1 "github.com/cosmos/cosmos-sdk/x/gov/types/v1"
 
 	ammtypes "github.com/elys-network/elys/x/amm/types"
 	leveragelptypes "github.com/elys-network/elys/x/leveragelp/types"
 	oracletypes "github.com/elys-network/elys/x/oracle/types"
+	stablestaketypes "github.com/elys-network/elys/x/stablestake/types"
 )
 
 // ---------------------------------------------------------------------------
@@ -209,4 +212,41 @@ func assetByDenom(d string) AssetDef {
 		}
 	}
 	return AssetDef{Denom: d, Decimals: 6}
+}
+
+// ---------------------------------------------------------------------------
+// CanaryAgent (C18, bounded liveness once faults stop): during the cool-down at the end of
+// a run it sends plain requests from a fresh-ish account every block - a bank transfer, a
+// vault deposit, a small swap on the first pool - and counts whether they were served
+// within the cool-down. Evidence only: a refused canary is not a violation of C18 as
+// stated (block processing did not fail), it is reported as canary_refused/<kind>.
+type CanaryAgent struct {
+	baseAgent
+	sent map[string]int64
+}
+
+func (a *CanaryAgent) Step(s *Sim) {
+	if !s.cooling {
+		return
+	}
+	u := s.W.Users[len(s.W.Users)-1]
+	v := s.W.Users[0]
+	s.SendTx(u, "canary/bank_send", &banktypes.MsgSend{FromAddress: u.Addr.String(), ToAddress: v.Addr.String(), Amount: sdk.NewCoins(sdk.NewInt64Coin(DenomUSDC, 1000))})
+	s.SendTx(u, "canary/bond", &stablestaketypes.MsgBond{Creator: u.Addr.String(), Amount: sdkmath.NewInt(1_000_000)})
+	s.SendTx(u, "canary/swap", &ammtypes.MsgSwapByDenom{Sender: u.Addr.String(), Amount: sdk.NewInt64Coin(DenomUSDC, 1_000_000), MinAmount: sdk.NewInt64Coin(DenomATOM, 0), DenomIn: DenomUSDC, DenomOut: DenomATOM, Recipient: u.Addr.String()})
+}
+
+func (a *CanaryAgent) Observe(s *Sim, eb *ExecBlock) {
+	for _, t := range eb.Txs {
+		if !strings.HasPrefix(t.Spec.Tag, "canary/") {
+			continue
+		}
+		kind := strings.TrimPrefix(t.Spec.Tag, "canary/")
+		if t.OK() {
+			s.Stats.Inc("canary_served/"+kind, 1)
+		} else {
+			s.Stats.Inc("canary_refused/"+kind, 1)
+			s.Stats.Inc("canary_refused_reason/"+kind+"/"+truncate(firstLine(t.Res.Log), 90), 1)
+		}
+	}
 }
